@@ -43,24 +43,30 @@ Proof.
   destruct (step md D F c ch); auto; discriminate.
 Qed.
 
-Lemma enabled_nil_quiescent D F c : enabled Async D F c = [] -> quiescent Async D F c.
+Lemma pids_elem c self p : procs c !! self = Some p -> In self (pids c).
 Proof.
-  intros He ch. destruct ch as [self|s r|f t]; try reflexivity.
-  destruct (step Async D F c (Run self)) eqn:Es; auto; exfalso.
-  - assert (Hin : In (Run self) (enabled Async D F c)).
-    { unfold enabled. apply filter_In. split; [|rewrite Es; auto].
-      unfold candidates. rewrite app_nil_r. apply in_map. unfold pids.
-      simpl in Es. destruct (procs c !! self) as [p|] eqn:Ep; [|discriminate].
-      apply elem_of_list_In. apply elem_of_list_fmap. exists (self, p). split; auto.
-      apply elem_of_map_to_list. auto. }
-    rewrite He in Hin. contradiction.
-  - assert (Hin : In (Run self) (enabled Async D F c)).
-    { unfold enabled. apply filter_In. split; [|rewrite Es; auto].
-      unfold candidates. rewrite app_nil_r. apply in_map. unfold pids.
-      simpl in Es. destruct (procs c !! self) as [p|] eqn:Ep; [|discriminate].
-      apply elem_of_list_In. apply elem_of_list_fmap. exists (self, p). split; auto.
-      apply elem_of_map_to_list. auto. }
-    rewrite He in Hin. contradiction.
+  intros Ep. unfold pids. apply elem_of_list_In. apply elem_of_list_fmap. exists (self, p). split; auto.
+  apply elem_of_map_to_list. auto.
+Qed.
+
+Lemma enabled_nil_quiescent md D F c : is_np md = false -> enabled md D F c = [] -> quiescent md D F c.
+Proof.
+  intros Hnp He ch.
+  destruct (step md D F c ch) eqn:Es; auto; exfalso.
+  all: assert (Hin : In ch (enabled md D F c));
+    [|rewrite He in Hin; contradiction].
+  all: unfold enabled; apply filter_In; split; [|rewrite Es; auto].
+  all: unfold candidates; destruct ch as [self|s r|f t].
+  all: try (simpl in Es; rewrite Hnp in Es; simpl in Es; discriminate).
+  all: try (apply in_or_app; left; apply in_map;
+            simpl in Es; destruct (procs c !! self) as [p|] eqn:Ep; [|discriminate];
+            eapply pids_elem; eauto).
+  all: destruct md; try discriminate; simpl in Es.
+  all: destruct (bool_decide (s = r)); try discriminate.
+  all: destruct (procs c !! s) as [ps|] eqn:Eps; try discriminate.
+  all: destruct (procs c !! r) as [pr|] eqn:Epr; try discriminate.
+  all: apply in_or_app; right; apply in_flat_map; exists s; split; [eapply pids_elem; eauto|].
+  all: apply in_map; eapply pids_elem; eauto.
 Qed.
 
 Section Runs.
@@ -74,27 +80,27 @@ Lemma reachable_trans md c0 c1 c2 : reachable D F md c0 c1 -> reachable D F md c
 Proof. intros H1 H2. induction H2; auto. eapply reach_step; eauto. Qed.
 
 (* a run that ends in quiescence ends in a reachable, typed, quiescent configuration *)
-Lemma exec_run_quiescent fuel pick : forall Δ c cq,
-  cfg_typed D F teq Δ c -> (forall c', reachable D F Async c c' -> Topo c') ->
-  exec_run fuel pick Async D F c = RQuiescent cq ->
-  reachable D F Async c cq /\ quiescent Async D F cq /\ exists Δ', cfg_typed D F teq Δ' cq.
+Lemma exec_run_quiescent md fuel pick : is_np md = false -> forall Δ c cq,
+  cfg_typed D F teq Δ c -> (forall c', reachable D F md c c' -> Topo c') ->
+  exec_run fuel pick md D F c = RQuiescent cq ->
+  reachable D F md c cq /\ quiescent md D F cq /\ exists Δ', cfg_typed D F teq Δ' cq.
 Proof.
-  induction fuel as [|fuel IH]; intros Δ c cq Hc Htopo; [simpl; discriminate|].
+  intros Hnp. induction fuel as [|fuel IH]; intros Δ c cq Hc Htopo; [simpl; discriminate|].
   rewrite (exec_run_S D F).
-  destruct (enabled Async D F c) as [|e0 es] eqn:Een.
+  destruct (enabled md D F c) as [|e0 es] eqn:Een.
   - intros [= <-]. split; [apply reach_refl|]. split; [apply enabled_nil_quiescent; auto|eauto].
   - cbv zeta.
     set (ch := nth (pick (S fuel) (S (length es)) mod S (length es)) (e0 :: es) e0).
-    assert (Hin : In ch (enabled Async D F c)).
+    assert (Hin : In ch (enabled md D F c)).
     { rewrite Een. apply nth_In. change (length (e0 :: es)) with (S (length es)).
       apply Nat.mod_upper_bound. lia. }
     apply enabled_sound in Hin.
-    destruct (step Async D F c ch) as [|c2|who' e'] eqn:Es; [contradiction| |discriminate].
+    destruct (step md D F c ch) as [|c2|who' e'] eqn:Es; [contradiction| |discriminate].
     intros Hrun.
-    assert (Hcl : closed_unused D Async c).
+    assert (Hcl : closed_unused D md c).
     { intros self p k st. eapply topo_closed_unused; eauto. apply Htopo. apply reach_refl. }
-    destruct (preservation_any D F teq Hteq HF Δ c ch c2 Hc Hcl Es) as [Δ' [_ Hc2]].
-    assert (Hstep : reachable D F Async c c2) by (eapply reach_step; [apply reach_refl|eauto]).
+    destruct (preservation_md D F teq Hteq HF md Δ c ch c2 Hnp Hc Hcl Es) as [Δ' [_ Hc2]].
+    assert (Hstep : reachable D F md c c2) by (eapply reach_step; [apply reach_refl|eauto]).
     destruct (IH Δ' c2 cq Hc2) as [Hr [Hq Ht]]; auto.
     + intros c' Hc'. apply Htopo. eapply reachable_trans; eauto.
     + split; auto. eapply reachable_trans; eauto.
@@ -165,11 +171,40 @@ Theorem progress_run_partial p p' :
 Proof.
   intros Ha Hf fuel pick c Hrun.
   pose proof (tc_annotations_typed p p' Ha Hf) as [HF Hprocs].
-  destruct (exec_run_quiescent _ _ _ (teq_ok p p' Ha) HF fuel pick _ _ _
+  destruct (exec_run_quiescent _ _ _ (teq_ok p p' Ha) HF Async fuel pick eq_refl _ _ _
               (initial_typed_accepted p p' Ha Hf) (fun c' Hc' => topo_reachable p p' Async c' Ha Hf eq_refl Hc') Hrun)
     as [Hr [Hq [Δ Hc]]].
   exists Δ. exact (progress_partial _ _ _ (teq_ok p p' Ha) HF Δ c Hc
                      (topo_reachable p p' Async c Ha Hf eq_refl Hr) Hq).
+Qed.
+
+(* nothing is ever buffered in a synchronous run *)
+Lemma sync_reachable_buffers p' c :
+  reachable (p_types p') (p_funs p') Sync (init_config p') c -> buffers_empty c.
+Proof.
+  induction 1 as [|c1 ch c2 Hr IH Hs]; [apply init_buffers_empty|]. eapply sync_step_buffers; eauto.
+Qed.
+
+(* C02, fragment, synchronous mode: the survivors offer a result on, or wait for a client of, their
+   own provider channel; if each of these channels has a client nobody survives *)
+Theorem progress_sync_run_partial p p' :
+  typecheck p = Accept p' -> in_fragment p' ->
+  forall fuel pick c,
+    exec_run fuel pick Sync (p_types p') (p_funs p') (init_config p') = RQuiescent c ->
+    (forall self pr, procs c !! self = Some pr ->
+       exists k, own_chan pr k /\
+         (action_of Sync (p_types p') pr = ARecv k \/
+          exists m, action_of Sync (p_types p') pr = ASend k m /\ is_pos_rule (m_rule m) = true)) /\
+    ((forall k, (exists self pr, procs c !! self = Some pr /\ own_chan pr k) ->
+                exists o, obj_in c o /\ k ∈ refs o) -> procs c = ∅).
+Proof.
+  intros Ha Hf fuel pick c Hrun.
+  pose proof (tc_annotations_typed p p' Ha Hf) as [HF Hprocs].
+  destruct (exec_run_quiescent _ _ _ (teq_ok p p' Ha) HF Sync fuel pick eq_refl _ _ _
+              (initial_typed_accepted p p' Ha Hf) (fun c' Hc' => topo_reachable p p' Sync c' Ha Hf eq_refl Hc') Hrun)
+    as [Hr [Hq [Δ Hc]]].
+  exact (progress_sync_partial _ _ _ (teq_ok p p' Ha) HF Δ c Hc
+           (topo_reachable p p' Sync c Ha Hf eq_refl Hr) (sync_reachable_buffers p' c Hr) Hq).
 Qed.
 
 End Accepted.
